@@ -22,7 +22,7 @@ CHECKS = {
              "run (≈9k requests quick) and the same grid is checked directly against int.to_bytes/from_bytes."
              " Added after the statement audit (Props/C07More): on ARBITRARY input every reader consumes exactly header + declared length, its value depends only on that prefix, and every strict prefix fails with not-enough-data (no over-read)."
              " SECOND TIE (translator): the nine BER primitive functions of asn1.py are translated statement by statement from the Python AST into Lean on every run "
-             "(harness/py2lean.py -> Generated/Asn1Gen.lean) and Props/TiesAsn1.lean + TiesAsn1More.lean (fuel bounds by SIZE, negative arguments, remainder restored) prove, for all inputs and all sufficient fuel, that each generated function "
+             "(harness/py2lean.py -> Generated/Asn1Gen.lean) and Props/TiesAsn1.lean + TiesAsn1More.lean (fuel bounds by SIZE, negative arguments, remainder restored) + TiesAsn1Api.lean (the six thin wrappers and every method of ASN1Reader / ASN1Writer: all of asn1.py that the message codec calls) prove, for all inputs and all sufficient fuel, that each generated function "
              "returns exactly what the hand-written model's function returns (same value, same error class) — so the C07 theorems are about what the source says now; "
              "the generated definitions are also run against the real functions (54k cases) to validate the translator. When this tie is not in force (a function left "
              "the translated subset, or a tie theorem no longer checks) the check says so (NOTE line, evidence.second_tie), searches with count-like parameters x4, and the property "
